@@ -9,6 +9,7 @@ import Rmk.Proofs.DecodeRoundtrip
 import Rmk.Proofs.ConstructRoot
 import Rmk.Proofs.Sizes
 import Rmk.Proofs.DeserWorkBound
+import Rmk.Proofs.DeserTreeLaws
 namespace Rmk.C10
 open Rmk
 
@@ -68,6 +69,16 @@ theorem work_linear (t : Ty) (hwf : t.wf = true) (s : List UInt8) (scope : Nat) 
     1 ≤ Impl.deserWork t s scope ∧
     Impl.deserWork t s scope ≤ DeserWorkBound.W t * (scope + 1) + DeserWorkBound.A t :=
   ⟨DeserWorkBound.deserWork_pos t s scope, DeserWorkBound.deserWork_le t hwf s scope⟩
+
+/-- C09 / C01 (decode route): the trees that `Bitlist.deserialize` / `Bitvector.deserialize` build DIRECTLY from the
+    chunks of the input (every other decoder goes through the constructors) are exactly the constructor trees of the
+    decoded bits: same node, hence same root (`Spec.htr`), fully readable, same sharing of zero subtrees. -/
+theorem bitfield_decoder_tree (H : Hash) (t : Ty) (s : List UInt8) (scope : Nat) (bits : List Bool) (rest : List UInt8)
+    (hwf : t.wf = true) (hk : (∃ lim, t = .bitlist lim) ∨ (∃ len, t = .bitvector len))
+    (h : Impl.deser t s scope = some (.bits bits, rest)) :
+    ∃ n, DeserTreeLaws.bitfieldTree H t (s.take scope) = some n ∧ Impl.construct H t (.bits bits) = some n ∧
+      n.root H = Spec.htr H t (.bits bits) :=
+  DeserTreeLaws.decoded_bitfield_root H t s scope bits rest hk hwf h
 
 /-! Non-vacuity of `work_linear`: a list of containers holding a list; a valid encoding costs 9 calls, a garbage
     offset 1, the bound at scope 20 is 22 -/
